@@ -36,6 +36,10 @@ RULES = {
     'R-SELP': ('r_guard', 'rule_SELP', 'default'),
     'R-NEG': ('r_misc', 'rule_NEG', 'default'),
     'R-HINT': ('r_layout', 'rule_HINT', 'default'),
+    'R-OBJ': ('r_misc', 'rule_OBJ', 'default'),
+    'R-ALL': ('r_misc', 'rule_ALL', 'default'),
+    'R-SIG': ('r_misc', 'rule_SIG', 'default'),
+    'R-PRE': ('r_misc', 'rule_PRE', 'default'),
 }
 
 _cache = {}
@@ -118,6 +122,10 @@ TEXT = {
     'R-SELP': 'R-SELP: select of the three trees uses only checked per-level rank/select whose None is propagated with `?` (no *_unchecked level query, no unwrap).',
     'R-NEG': 'R-NEG: where zeros are found by complementing a word (BIT = false), the complement is taken of the stored word itself, never of a shifted or masked value.',
     'R-INV': 'R-INV: every call of an unsafe fn made by a safe function is in the reviewed inventory (engine/unsafe_inventory.json, 50 classified sites) or is a slice access dominated by index < len of the same slice; a new unclassified unchecked operation is reported.',
+    'R-ALL': 'R-ALL: an iteration in exact chunks (chunks_exact, array_chunks, ..) consumes its remainder or runs over a fixed array whose length is a multiple of the chunk size: no element is skipped.',
+    'R-SIG': 'R-SIG: the value the constructor stores in `sigma` (bound of the symbol guard) derives from Iterator::max over a plain element iterator of the input, not from another reduction.',
+    'R-PRE': 'R-PRE: where a crate function asserts `p <= C` on entry and a call site guards the same argument by a constant, the two constants agree (caller/callee belief contradiction).',
+    'R-OBJ': 'R-OBJ: a function handed a component by reference (select<BIT>(.., inventories: &Inventories<BIT>)) never reads a field of self of the same type, in its body or its inlined private helpers: the work is done on the object it was given.',
     'R-TAB': 'R-TAB: the compiler-evaluated K_SELECT_IN_BYTE is compared with its definition for all 2048 entries (exhaustive).',
 }
 
@@ -138,26 +146,26 @@ EXPL = ('Static analysis of the type-checked program (MIR, ADT/impl metadata, ev
         'configurations. Decides the structural clauses listed under `rule` -- necessary conditions of the property that are visible in the shape '
         'of the code on every path -- and NOT the input/output behaviour, which quantifies over runtime values. ')
 
-_p('C01', ['R-G', 'R-SIB', 'R-E', 'R-O', 'R-W', 'R-TW', 'R-DEL', 'R-LAY', 'R-BITS', 'R-SPLIT', 'R-SMP', 'R-CMP', 'R-SELP'], 'other',
+_p('C01', ['R-G', 'R-SIB', 'R-E', 'R-O', 'R-W', 'R-TW', 'R-DEL', 'R-LAY', 'R-BITS', 'R-SPLIT', 'R-SMP', 'R-CMP', 'R-SELP', 'R-SIG', 'R-PRE'], 'other',
    EXPL + 'C01: validation of QWaveletTree get/rank/rank_prefetch/select, empty/default state, argument arithmetic, symbol width in builder/partition/readers, construction paths.',
    'that ranks/offsets compose to the right count and position across levels; sigma / n_levels arithmetic; that stable_partition_of_4 is a stable permutation')
-_p('C02', ['R-G', 'R-SIB', 'R-E', 'R-O', 'R-W', 'R-LVL', 'R-TW', 'R-DEL', 'R-LAY', 'R-BITS', 'R-SPLIT', 'R-SMP', 'R-SELP'], 'other',
+_p('C02', ['R-G', 'R-SIB', 'R-E', 'R-O', 'R-W', 'R-LVL', 'R-TW', 'R-DEL', 'R-LAY', 'R-BITS', 'R-SPLIT', 'R-SMP', 'R-SELP', 'R-SIG', 'R-PRE'], 'other',
    EXPL + 'C02: validity test (symbol has a code) on rank/rank_prefetch/select, its width, empty state, level-write guard and provenance of code lengths, construction paths.',
    'correctness of craft_wm_codes (prefix-freeness, ordering), independence from hash-map tie order, decode-table search, code lengths beyond 16 levels')
-_p('C03', ['R-G', 'R-SIB', 'R-E', 'R-O', 'R-W', 'R-LVL', 'R-TW', 'R-DEL', 'R-LAY', 'R-BITS', 'R-SPLIT', 'R-HINT', 'R-SELP'], 'other',
+_p('C03', ['R-G', 'R-SIB', 'R-E', 'R-O', 'R-W', 'R-LVL', 'R-TW', 'R-DEL', 'R-LAY', 'R-BITS', 'R-SPLIT', 'R-HINT', 'R-SELP', 'R-SIG'], 'other',
    EXPL + 'C03: validation of WT/HWT get/rank/select in both specialisations, symbol carried in the element type, empty state, level-write guard, construction paths.',
    'wavelet-matrix arithmetic, binwt::craft_wm_codes table bounds for degenerate alphabets (loop-carried indices), tie orders')
-_p('C04', ['R-G', 'R-E', 'R-O', 'R-UNS', 'R-SIB', 'R-LAY', 'R-DA', 'R-DBG', 'R-SMP', 'R-CMP', 'R-SELP', 'R-PF', 'R-INV'], 'other',
+_p('C04', ['R-G', 'R-E', 'R-O', 'R-UNS', 'R-SIB', 'R-LAY', 'R-DA', 'R-DBG', 'R-SMP', 'R-CMP', 'R-SELP', 'R-PF', 'R-INV', 'R-DAR', 'R-PRE'], 'other',
    EXPL + 'C04: every unchecked access is behind the documented guard, empty/default states reach no trap, argument arithmetic is bounded, unchecked API is unsafe, '
    'raw views match layouts.',
    'index arithmetic inside search loops (select_block, select*_subblock, block_predecessor, DArray word scan: sentinel invariants over stored data), CPU feature of _popcnt64, allocation failure')
-_p('C05', ['R-G', 'R-SIB', 'R-E', 'R-TW', 'R-LAY', 'R-DEL', 'R-DA', 'R-SPLIT', 'R-SMP', 'R-CMP'], 'other',
+_p('C05', ['R-G', 'R-SIB', 'R-E', 'R-TW', 'R-LAY', 'R-DEL', 'R-DA', 'R-SPLIT', 'R-SMP', 'R-CMP', 'R-PRE'], 'other',
    EXPL + 'C05: validation of RSQVector get/rank/select/occs/occs_smaller, packed superblock record (writer/reader agreement), sampling constants, twins.',
    'counter contents, the sampled search, in-block select, per-symbol totals being prefix sums')
-_p('C06', ['R-G', 'R-SIB', 'R-E', 'R-TW', 'R-LAY', 'R-DEL', 'R-SPLIT', 'R-CMP', 'R-HINT'], 'other',
+_p('C06', ['R-G', 'R-SIB', 'R-E', 'R-TW', 'R-LAY', 'R-DEL', 'R-SPLIT', 'R-CMP', 'R-HINT', 'R-NON'], 'other',
    EXPL + 'C06: validation of RSNarrow/RSWide get/rank1/select1/select0, rank0 = i - rank1, empty state, packed counters and hint periods.',
    'counter construction and the hint/linear search')
-_p('C07', ['R-DAR', 'R-G', 'R-E', 'R-TW', 'R-DEL', 'R-LAY', 'R-SPLIT', 'R-NEG'], 'other',
+_p('C07', ['R-DAR', 'R-G', 'R-E', 'R-TW', 'R-DEL', 'R-LAY', 'R-SPLIT', 'R-NEG', 'R-OBJ'], 'other',
    EXPL + 'C07: writer/reader agreement on the shared inventories, the u16 narrowing bound, flush trigger, select guards, default state.',
    'the word scan and sign-encoded pointers')
 _p('C08', ['R-SIB', 'R-NON', 'R-O', 'R-G', 'R-TW', 'R-LAY', 'R-E', 'R-SPLIT', 'R-CMP', 'R-NEG'], 'other',
@@ -167,7 +175,7 @@ _p('C09', ['R-PF', 'R-EFF', 'R-SIB', 'R-LAY', 'R-BITS'], 'other',
    EXPL + 'C09: rank_prefetch validates like rank and returns exactly rank_unchecked on the untouched arguments; prefetch addresses use wrapping arithmetic and only reach the '
    'intrinsic; positions feed only hints; bodies are feature-independent.',
    'that the estimates stay within the next level where they are re-used as arguments of approx_rank_unchecked / rank_block_unchecked (an invariant over data)')
-_p('C10', ['R-TW', 'R-DA', 'R-DBG', 'R-G', 'R-UNS', 'R-O'], 'other',
+_p('C10', ['R-TW', 'R-DA', 'R-DBG', 'R-G', 'R-UNS', 'R-O', 'R-NON', 'R-W'], 'other',
    EXPL + 'C10: twin shapes make checked and unchecked values equal by construction; debug assertions equal the documented precondition; build profiles differ only by assertions.',
    'whether the shared unchecked body is itself correct (C01-C08)')
 _p('C11', ['R-SER', 'R-AUTO', 'R-EFF'], 'proof',
@@ -187,7 +195,7 @@ _p('C15', ['R-LVL'], 'other', EXPL + 'C15: levels hold only live codes; optimal 
    'the numeric bounds n(H0+2), n(H0+1): they follow from Huffman optimality (trusted crate minimum_redundancy) given the decided clauses')
 _p('C16', ['R-SPC'], 'other', EXPL + 'C16: every heap-bearing component is accounted; Vec counts capacity; scaled variants divide by 1024^k.',
    'closeness in percent; Huffman table constants')
-_p('C17', ['R-TAB', 'R-W'], 'other', EXPL + 'C17: the in-byte select table is checked exhaustively (2048 entries) against its definition; partitions shift in the element type.',
+_p('C17', ['R-TAB', 'R-W', 'R-ALL'], 'other', EXPL + 'C17: the in-byte select table is checked exhaustively (2048 entries) against its definition; partitions shift in the element type.',
    'broadword arithmetic of select_in_word(_u128) for all words, popcnt_wide, msb, permutation/stability of partitions, text_remap (numeric facts over all inputs)')
 _p('C18', ['R-AUTO', 'R-EFF', 'R-UNS'], 'proof',
    'Obligations = per field of the containment closure {no interior mutability / raw pointer / shared-ownership type}, per &self query method {no write effect on its call-graph closure}, '
